@@ -83,14 +83,3 @@ Lemma pm_act_source_facts :
   pm_reresolve_ok f_pm_query_acts_on_pointer pm_ccfg_query /\ pm_reresolve_ok f_pm_modify_acts_on_pointer pm_ccfg_modify /\
   pm_reresolve_ok f_pm_delete_acts_on_pointer pm_ccfg_delete /\ pm_reresolve_ok f_pm_actions_acts_on_pointer pm_ccfg_actions.
 Proof. cbv. repeat split. Qed.
-
-(* ---- round 6: which configuration of Perm/PmUsers.v this source tree is.  f_pm_perms_read_fresh = Some true: HasPermission
-   reads user->GetPermissions() on every call and class ApiUser has no data member of its own (nothing derived from the
-   list can survive a request): pmu_memo = false.  f_pm_auth_user_per_request = Some true: the user of a request is a local of
-   the ProcessMessages loop, m_ApiUser is assigned in the constructor only: pmu_sticky = false.  Some false does not check. *)
-From Icv Require Import Perm.PmUsers.
-Definition pmu_cfg_tree : pmu_cfg := {| pmu_memo := false; pmu_invalidate := false; pmu_sticky := false |}.
-Definition pmu_memo_ok (f : option bool) (c : pmu_cfg) : Prop := match f with Some b => pmu_memo c = negb b | None => True end.
-Definition pmu_sticky_ok (f : option bool) (c : pmu_cfg) : Prop := match f with Some b => pmu_sticky c = negb b | None => True end.
-Lemma pmu_source_facts : pmu_memo_ok f_pm_perms_read_fresh pmu_cfg_tree /\ pmu_sticky_ok f_pm_auth_user_per_request pmu_cfg_tree.
-Proof. cbv. repeat split. Qed.
